@@ -339,9 +339,9 @@ class BaseInput:
             # first row is columns
             cols = next(data)
             data = list(data)
-            return pd.DataFrame(data, columns=cols, dtype=str)
+            return pd.DataFrame(data, columns=cols, dtype=str).fillna("n/a")
         else:
-            return pd.DataFrame(worksheet.values, dtype=str)
+            return pd.DataFrame(worksheet.values, dtype=str).fillna("n/a")
 
     def validate(self, hed_schema, extra_def_dicts=None, name=None, error_handler=None):
         """Creates a SpreadsheetValidator and returns all issues with this file.
@@ -456,7 +456,8 @@ class BaseInput:
 
         # If file is already a DataFrame
         if isinstance(file, pd.DataFrame):
-            self._dataframe = file.astype(str)
+            # As for text files: missing cells are n/a, and rows are numbered by position.
+            self._dataframe = file.astype(object).where(file.notna(), "n/a").astype(str).reset_index(drop=True)
             self._has_column_names = self._dataframe_has_names(self._dataframe)
             return
 
